@@ -426,7 +426,7 @@ def load_cells():
             for src in ("str", "Path"):
                 for fmtarg in ("explicit", "suffix"):
                     for ot in OTYPES:
-                        for name in (None, "given_name"):
+                        for name in (None, "given_name", "lig-1 (2,2'-bipy) #3"):
                             yield {"fn": fn, "fmt": fmt, "src": src, "fmtarg": fmtarg, "otype": ot, "name": name}
                             if name is None:
                                 yield {"fn": fn, "fmt": fmt, "src": src, "fmtarg": fmtarg, "otype": ot, "name": name, "stem": "mol.conf.1 v2.XYZ.mol2.final"}
@@ -438,7 +438,7 @@ def load_cells():
     for fn in ("loads", "loads_all"):
         for fmt in FMTS:
             for ot in OTYPES:
-                for name in (None, "given_name"):
+                for name in (None, "given_name", "lig-1 (2,2'-bipy) #3"):
                     yield {"fn": fn, "fmt": fmt, "src": "string", "fmtarg": "explicit", "otype": ot, "name": name}
 
 
